@@ -590,6 +590,11 @@ def run(ctx):
             ctx.property_failure(res[0], res[1], dict(res[2], failing_input=dict(FRAC_WITNESS)))
     # failing-input search on the real code
     search(ctx)
+    for _ in range(ctx.n(12, 150)):
+        ctx.count("search:reused-accountant")
+        res = L.reused_accountant_oracle(ctx.rng, "rdp", delta=10 ** ctx.rng.uniform(-7, -4))
+        if res:
+            ctx.property_failure(res[0], res[1], res[2])
 
 
 def search(ctx):
@@ -635,11 +640,35 @@ def search(ctx):
             raise core.InfraError(f"quadrature oracle disagrees with mpmath ({worst})")
 
 
+def replay_reused(fi):
+    """the recorded pair of ledgers again, with every way of replacing the ledger"""
+    from opacus.accountants import create_accountant
+    kw = {"eps_error": 0.01} if fi["mech"] == "prv" else {}
+    for how in ("assign", "load_state_dict", "inplace"):
+        acc = create_accountant(mechanism=fi["mech"])
+        acc.history = [tuple(x) for x in fi["h1"]]
+        acc.get_epsilon(fi["delta"], **kw)
+        if how == "assign":
+            acc.history = [tuple(x) for x in fi["h2"]]
+        elif how == "load_state_dict":
+            o = create_accountant(mechanism=fi["mech"]); o.history = [tuple(x) for x in fi["h2"]]; acc.load_state_dict(o.state_dict())
+        else:
+            acc.history[:] = [tuple(x) for x in fi["h2"]]
+        got = float(acc.get_epsilon(fi["delta"], **kw))
+        f = create_accountant(mechanism=fi["mech"]); f.history = [tuple(x) for x in fi["h2"]]
+        want = float(f.get_epsilon(fi["delta"], **kw))
+        if got != want:
+            return (("C06" if fi["mech"] == "rdp" else "C05") + f":stale-ledger:{fi['mech']}", f"ledger replaced ({how}): reports {got}, fresh accountant {want}", {})
+    return None
+
+
 def replay(ctx, rp):
     fi = rp.get("failing_input") or rp.get("case") or {}
     res = None
     if "history" in fi:
         res = history_oracle({"history": [tuple(x) for x in fi["history"]], "delta": fi["delta"], "alphas": fi.get("alphas", rp.get("alphas"))})
+    elif fi.get("oracle") == "reused-accountant":
+        res = replay_reused(fi)
     elif "q" in fi and "orders" in fi and "steps" in fi:
         res = public_rdp_oracle(fi)
     elif "q" in fi and "alpha" in fi:
